@@ -11,12 +11,6 @@ open Go
 
 def spaces (n : Nat) : Str := List.replicate n ' '
 
-def sVHtml : Str := "data-v-html-content".toList
-def sVText : Str := "data-v-text-content".toList
-def sTemplate : Str := "template".toList
-def sScript : Str := "script".toList
-def sStyle : Str := "style".toList
-def sVKeep : Str := "v-keep".toList
 def sDoctypeOpen : Str := ['<', '!', 'D', 'O', 'C', 'T', 'Y', 'P', 'E', ' ']
 
 /-- `renderAttrs` -/
@@ -27,14 +21,6 @@ def renderAttrs : List Attr → Str
     else
       let key := if Generated.isLiteralAttr k then (k.drop 1).dropLast else k
       ' ' :: (key ++ ['=', '"'] ++ Generated.escapeAttrValue v ++ ['"'] ++ renderAttrs r)
-
-/-- the loop `for _, attr := range node.Attr { if html-content {..; break}; if text-content {..; break} }` -/
-def contentAttrs : List Attr → Str × Str
-  | [] => ([], [])
-  | (k, v) :: r =>
-    if k == sVHtml then (v, [])
-    else if k == sVText then ([], v)
-    else contentAttrs r
 
 def isRawTextTag (t : Str) : Bool := t == sScript || t == sStyle
 
